@@ -4,7 +4,8 @@ import Pog.Model.Basic
 
     * `formatText`      = `UnifiedTypeService._format_resolved_type` on the TEXT of `ResolvedType.python_type`
                           (branch for branch: `startswith("Optional[")` raises, quoting of forward references,
-                          ` | None` suffix)
+                          the optional marker: ` | None` INSIDE the quotes of a text that is one string literal
+                          (`isQuotedLit`), the ` | None` suffix otherwise)
     * `Ann`, `render`   : annotation syntax trees and their text
     * `formatResolved`  : the same function on trees (`render_formatResolved` in Lemmas ties it to `formatText`)
     * `listOf`/`unionOf`: `OpenAPISchemaResolver._resolve_array` / `_resolve_any_of` / `_resolve_one_of`
@@ -22,12 +23,20 @@ def optionalPrefix : Str := "Optional[".toList
 def orNoneSuffix : Str := "| None".toList
 def orNoneTail : Str := " | None".toList
 
+/-- `t.startswith('"') and t.endswith('"') and t.count('"') == 2`: the text is ONE string literal. -/
+def isQuotedLit (t : Str) : Bool := startsWith t ['"'] && endsWith t ['"'] && (t.count '"' == 2)
+
+/-- `t[1:-1]` -/
+def unquote (t : Str) : Str := (t.drop 1).dropLast
+
 /-- `_format_resolved_type(ResolvedType(python_type, is_optional, is_forward_ref))`;
     `none` = the `ValueError` for a legacy `Optional[`. -/
 def formatText (pythonType : Str) (isOptional isForwardRef : Bool) : Option Str :=
   if startsWith pythonType optionalPrefix then none else
   let t1 := if isForwardRef && !startsWith pythonType ['"'] then ['"'] ++ pythonType ++ ['"'] else pythonType
-  let t2 := if isOptional && !endsWith t1 orNoneSuffix then t1 ++ orNoneTail else t1
+  let t2 := if isOptional && !endsWith t1 orNoneSuffix then
+      (if isQuotedLit t1 then ['"'] ++ unquote t1 ++ orNoneTail ++ ['"'] else t1 ++ orNoneTail)
+    else t1
   some t2
 
 /-! ## annotation trees -/
@@ -74,7 +83,9 @@ def quoteIfFwd (ty : Ann) (fwd : Bool) : Ann :=
 def formatResolved (r : Resolved) : Option Ann :=
   if startsWith (render r.ty) optionalPrefix then none else
   let a := quoteIfFwd r.ty r.isForwardRef
-  some (if r.isOptional && !endsWith (render a) orNoneSuffix then .bor a .none_ else a)
+  some (if r.isOptional && !endsWith (render a) orNoneSuffix then
+          (if isQuotedLit (render a) then .quoted (unquote (render a) ++ orNoneTail) else .bor a .none_)
+        else a)
 
 /-! ## resolver assembly -/
 
